@@ -402,11 +402,13 @@ func runC20(cx *Ctx, r *Report) {
 	c20PresenceTests(cx, r, api, "presence-test")
 	c20PresenceTests(cx, r, gogo, "presence-test")
 	c20ApiGrpc(cx, r, api)
+	cx.gogoNestedAlloc(r)
 	r.requireCount("desc-equal", 45)
 	r.requireCount("msg-registered", 60)
 	r.requireCount("signer", 60)
 	r.requireCount("signer-legacy-agrees", 60)
 	r.requireCount("gogo-tags", 200)
+	r.requireCount("gogo-nested-alloc", 40)
 }
 
 // ------------------------------------------------------------------ registration
